@@ -655,7 +655,7 @@ func TestPlonkSoundness(t *testing.T) {
 	rec := ev.Get(ID)
 	rec.SetRule(ruleA)
 	g := genCase(curvesForTier())
-	rec.Check(t, "plonk", ev.N(200, 10000), func(rt *rapid.T) {
+	rec.Check(t, "plonk", ev.N(500, 10000), func(rt *rapid.T) {
 		c := g.Draw(rt, "case")
 		rec.Begin("plonk", c)
 		rec.Report(rt, "plonk", c, run(c, rec))
@@ -721,7 +721,7 @@ func TestPlonkKey(t *testing.T) {
 	rec := ev.Get(ID)
 	rec.SetRule(ruleB)
 	curves := curvesForTier()
-	rec.Check(t, "plonkkey", ev.N(150, 5000), func(rt *rapid.T) {
+	rec.Check(t, "plonkkey", ev.N(400, 5000), func(rt *rapid.T) {
 		cn := rapid.SampledFrom(curves).Draw(rt, "curve")
 		f := prog.FieldByName(cn)
 		p := zk.GenProvable(zk.ProvableCfg{Q: f.Q, MaxOps: 9, MaxCommits: 2, PFail: 30}).Draw(rt, "prog")
